@@ -892,8 +892,15 @@ def c05_19(ctx):
     kinds = {"p2pkh": ("P2PKHScriptPubKey", [0x76, 0xA9, h20, 0x88, 0xAC], "legacy"), "p2sh": ("P2SHScriptPubKey", [0xA9, h20, 0x87], "legacy"),
              "p2wpkh": ("P2WPKHScriptPubKey", [0, h20], "bip143"), "p2wsh": ("P2WSHScriptPubKey", [0, h32], "bip143"), "p2tr": ("P2TRScriptPubKey", [0x51, h32], "bip341"),
              "p2sh-p2wpkh": ("P2SHScriptPubKey", [0xA9, h20, 0x87], "bip143"), "p2sh-p2wsh": ("P2SHScriptPubKey", [0xA9, h20, 0x87], "bip143")}
-    hooks_base = {("Tx", "sig_hash_bip341"): lambda o, *a, **k: ("bip341",), ("Tx", "sig_hash_bip143"): lambda o, *a, **k: ("bip143",),
-                  ("Tx", "sig_hash_legacy"): lambda o, *a, **k: ("legacy",)}
+    # the stand-ins report which algorithm was asked for, for which input, with which hash type and (legacy / BIP143) which RedeemScript --
+    # under the parameter names and positions of the three digest functions
+    def _args(names, a, k):
+        d = dict(zip(names, a))
+        d.update(k)
+        return d
+    hooks_base = {("Tx", "sig_hash_bip341"): lambda o, *a, **k: ("bip341", _args(("input_index", "ext_flag", "hash_type"), a, k)),
+                  ("Tx", "sig_hash_bip143"): lambda o, *a, **k: ("bip143", _args(("input_index", "redeem_script", "witness_script", "hash_type"), a, k)),
+                  ("Tx", "sig_hash_legacy"): lambda o, *a, **k: ("legacy", _args(("input_index", "redeem_script", "hash_type"), a, k))}
     cells = 0
     try:
         for kind, (cls, cmds, want) in kinds.items():
@@ -914,6 +921,21 @@ def c05_19(ctx):
                         r = Evaluator(ctx.repo, method_hooks=hooks).call(spec, [idx, hash_type], self_obj=me)
                     except Raised as x:
                         r = "raises %s" % x.name
+                    if isinstance(r, tuple) and len(r) == 2 and r[0] == want and isinstance(r[1], dict):
+                        fw = r[1]
+                        wrong = None
+                        if fw.get("input_index") != idx:
+                            wrong = "the digest is asked for input %s" % fw.get("input_index")
+                        elif fw.get("hash_type", "default") != hash_type:
+                            wrong = "the hash type handed to the %s digest is %s (its default, SIGHASH_ALL, when nothing is passed)" % (want.upper(), fw.get("hash_type", "not passed"))
+                        elif kind.startswith("p2sh") and fw.get("redeem_script") is not red:
+                            wrong = "the RedeemScript handed to the digest is not the one in the ScriptSig"
+                        if wrong:
+                            return [ctx.bad(spec, "for a %s input at index %d with hash type %#04x: %s -- the signature hash does not commit to what the hash type says" % (kind, idx, hash_type, wrong),
+                                            fn, mod, key="digest-by-output-type")]
+                        r = (want,)
+                    elif isinstance(r, tuple) and len(r) == 2:
+                        r = (r[0],)
                     if r != (want,):
                         return [ctx.bad(spec, "for a %s input at index %d of a transaction with 1 output and hash type %#04x, sig_hash gives %s instead of the %s digest: the "
                                               "algorithm is not chosen by the type of the spent output" % (kind, idx, hash_type, ("%#x" % r) if isinstance(r, int) else r, want.upper()),
